@@ -9,7 +9,7 @@ def _rerun_before_report(run):
         reproduced = 0
         for item in items:
             case, answer, sname, idx, sd = item
-            if sname not in ("batch", "net") or " => " not in case or reproduced >= 3:
+            if sname not in ("batch", "net", "comp") or " => " not in case or reproduced >= 3:
                 # (once three cases have failed again the rest is reported as is)
                 keep.append(item)
                 continue
@@ -30,7 +30,7 @@ def _rerun_before_report(run):
     run.propfails = retry(run.propfails)
     run.diffs = retry(run.diffs)
     for i, (n, ok, d) in enumerate(run.obligations):
-        if not ok and n in ("correspondence:batch", "correspondence:net"):
+        if not ok and n in ("correspondence:batch", "correspondence:net", "correspondence:comp"):
             sname = n.split(":")[1]
             if not [x for x in run.diffs + run.badcases if x[2] == sname]:
                 run.obligations[i] = (n, True, "differences not reproduced on re-run (counted inconclusive)")
@@ -41,20 +41,28 @@ CHECK = {
         suite("set", "c02", 300, 9000, stdin=True, args=["-suite", "set"], timeout={"quick": 300, "thorough": 900}),
         suite("batch", "c02", 120, 1500, stdin=True, args=["-suite", "batch"], timeout={"quick": 300, "thorough": 900}),
         suite("net", "c02", 8, 80, stdin=True, args=["-suite", "net"], timeout={"quick": 300, "thorough": 1200}),
+        suite("comp", "c02", 60, 600, stdin=True, args=["-suite", "comp"], timeout={"quick": 300, "thorough": 1200}),
+        suite("val", "c02", 3000, 60000, stdin=True, args=["-suite", "val"], timeout={"quick": 300, "thorough": 900}),
     ],
     "gen": [{"pkg": "extract_c02", "out": "lean/ClusterVerif/Gen/C02.lean"}],
-    "lean_sources": ["ClusterVerif/Model/C02Source.lean", "ClusterVerif/Gen/C02.lean", "ClusterVerif/Model/C02.lean", "ClusterVerif/Spec/C02.lean", "ClusterVerif/Lemmas/C02.lean"],
+    "lean_sources": ["ClusterVerif/Model/C02Source.lean", "ClusterVerif/Gen/C02.lean", "ClusterVerif/Model/C02.lean", "ClusterVerif/Spec/C02.lean", "ClusterVerif/Lemmas/C02.lean", "ClusterVerif/Lemmas/C02Compose.lean"],
     "rule": "set: 2-3 real go-ds-crdt replicas, 2-12 puts/deletes/batches over 1-3 keys, scripted deliveries (old, repeated, newest-first), "
             "final full exchange; thorough: every third case delivers a <=5-delta history to a third replica in the k-th of all permutations. "
             "batch: one real crdt.Consensus, batching off / size 1,2,3,5 / age 60ms, queue 50 or size..size+2, bursts against a worker held inside "
-            "Commit, one injected datastore write failure (DAG node / tombstone batch / element batch / head) per case. net: 2-3 real peers over "
+            "Commit, any number of injected datastore write failures (DAG node / tombstone batch / element batch / head; one per publish attempt, 1-3 per "
+            "failure script, several scripts per case); age mode is run in the model under the observed batch boundaries. comp: real crdt.Consensus A "
+            "(batching off / size 1,2,3) + real peer B (batching off) whose operations are merged at A between scripted steps of A's worker, also while a "
+            "batch is open, 0-2 failed publish attempts; every delta (elements, tombstones, priority), hook call and view compared. val: the real topic "
+            "validator closure called in-process with every (signer, forwarder) pair over 2-6 peers after random Trust/Distrust histories. net: 2-3 real peers over "
             "loopback pubsub, trust all / trust_all / one peer trusted by nobody / relay chain 0-1-2 with a connection gater (peer 2 trusts the signer only, the "
             "forwarder only, everybody), phases with one writer per CID. non-trivial = at least one delta "
             "(set) or one operation and one observation (batch, net); distinct by case line",
     "trusted_base": ["in-memory DAG service shared by the replicas and harness-controlled broadcaster (set suite)",
                      "datastore wrapper classifying the writes of a publish by key prefix, gate and one-shot failure; recording PinTracker RPC service",
                      "value numbering: numeric order of value ids = bytes.Compare of the real ProtoMarshal encodings (pins with <= 1 metadata key)",
-                     "libp2p/gossipsub delivery and signature checking, ipfs-lite block exchange (net suite)"],
+                     "libp2p/gossipsub delivery and signature checking, ipfs-lite block exchange (net and comp suites)",
+                     "local-publish detection by call stack (addDAGNode), DAG-node capture and head-put capture in the datastore wrapper (comp suite)",
+                     "reading the registered validator out of go-libp2p-pubsub v0.4.1 by reflection; pubsub's own signature check is not exercised (val suite)"],
     "extra": [_rerun_before_report],
     "assumptions": ["value convergence is claimed under (H1) no delta puts a key twice and (H2) the greatest (priority,value) of a member key "
                     "belongs to a never-tombstoned element; outside them go-ds-crdt v0.1.21 diverges (K05, K05b) - proved and replayed",
@@ -70,7 +78,13 @@ META = {
             "the taken ones followed by the queued ones, and the committed pinset is the replay of the accepted operations in submission order; while "
             "anything is pending the age timer is armed or the age commit is under way; a full batch and a fired timer lead straight to Commit. The model "
             "is tied to the code by replaying thousands of scripted histories on real go-ds-crdt replicas (every delta, merge order, hook and view "
-            "compared) and on a real crdt.Consensus with a controllable datastore (results, pinset, Track/Untrack sequence compared), plus networked peers.",
+            "compared) and on a real crdt.Consensus with a controllable datastore (results, pinset, Track/Untrack sequence compared), plus networked peers. "
+            "Round 7: the two models are composed into one LTS (local submissions, worker steps, commits failing any number of times, remote walks merged "
+            "between any two of them, a validator gate in front of the merge): the accepted operations reach the replica's delta stream in submission order "
+            "at strictly increasing priorities; a remote merge leaves the pending batch untouched and only raises the priority the next commit reads; two "
+            "composed replicas that received each other's stream hold the same CIDs (and contents under H1/H2); the tracker calls are a function of the "
+            "batch boundaries while the committed pinset is not; the state is a function of what trusted signers authored. Tied by the comp suite (real "
+            "Consensus + second real peer, scripted deliveries) and the val suite (real validator closure, thousands of in-process cases).",
     "note": "Trusted: Lean kernel, hand-written model/spec, harness (datastore wrapper, broadcaster, value numbering), pubsub in the net suite. "
             "Known findings K05/K05b/K05c/K05d are dependency defects (go-ds-crdt v0.1.21), each with a proved witness and a narrow signature.",
     "technique": "regenerated source text of the anchored functions checked against the transcribed snapshot (rfl) + Lean 4 theorems over a replicated-set model and a batching-worker step model + differential correspondence on real go-ds-crdt replicas and a real crdt.Consensus",
